@@ -752,6 +752,19 @@ class Term(Container):
                                           "multiple fock matrix elements with "
                                           f"intersecting indices: {self}")
             sub.update(sub_obj)
+        # resolve chains of substitutions that originate from fock matrix
+        # elements with intersecting indices: f_ij f_jk -> j: i, k: j => k: i
+        for old in sub:
+            new, seen = sub[old], {old}
+            while new in sub:
+                if new in seen:
+                    raise NotImplementedError("Did not implement the case of "
+                                              "multiple fock matrix elements "
+                                              "with intersecting indices: "
+                                              f"{self}")
+                seen.add(new)
+                new = sub[new]
+            sub[old] = new
         # if term is part of a polynom -> return the sub dict and perform the
         # substitution in the polynoms parent term object.
         # provide the target indices to the returned expression, because
